@@ -177,7 +177,13 @@ def kf_triggers(evs):
             theirs = [(b2, e2) for b2, e2 in spans.get(q, []) if b2 <= ci <= e2]
             if mine and theirs and theirs[0][0] < i < theirs[0][1] and evs[mine[0][0]]["op"] == "install" \
                     and evs[mine[0][0]]["flags"]["replace"]:
-                tr.append(("KF-L24-replace-supersedes-running-install", i))
+                # the listed finding is the window in which the name check legitimately passed: when the replacing
+                # install read the history, its last revision was failed or uninstalled (not somebody's pending record)
+                seen = [y for y in evs[mine[0][0]:i] if y["ev"] == "call" and y["proc"] == x["proc"] and y["kind"] == "store"
+                        and y["verb"] == "query"]
+                st0 = (seen[0] if seen else evs[mine[0][0]])["state"]["store"]
+                if st0 and st0[str(max(int(k) for k in st0))]["st"] in ("failed", "uninstalled"):
+                    tr.append(("KF-L24-replace-supersedes-running-install", i))
     return tr
 
 
